@@ -165,6 +165,17 @@ pub(crate) fn build_query_response<'a>(
     packets
 }
 
+/// Verification hook: visibility shim over [`build_query_response`].
+#[cfg(libp2p_verif)]
+pub fn verif_build_query_response(
+    id: u16,
+    peer_id: PeerId,
+    addresses: &[Multiaddr],
+    ttl: Duration,
+) -> Vec<Vec<u8>> {
+    build_query_response(id, peer_id, addresses.iter(), ttl)
+}
+
 /// Builds the response to a service discovery DNS query.
 pub(crate) fn build_service_discovery_response(id: u16, ttl: Duration) -> MdnsPacket {
     // Convert the TTL into seconds.
